@@ -272,6 +272,27 @@ Definition eg_scheme (q x : Z) : hscheme lf := {|
   hs_rer := eg_rerandomise q x; hs_shift := eg_shift q |}.
 
 (* ===================================================================== *)
+(* the Equal methods: component-wise equality of keys                     *)
+(* ===================================================================== *)
+
+(* pedersencom CommitmentKey.Equal: g and h; TrapdoorKey.Equal: g and λ *)
+Definition ped_key_eqb (q : Z) (a b : ped_key) : bool :=
+  lf_eqb (lf_norm q (pk_g a)) (lf_norm q (pk_g b)) && lf_eqb (lf_norm q (pk_h a)) (lf_norm q (pk_h b)).
+Definition ped_tkey_eqb (q : Z) (a b : ped_tkey) : bool :=
+  lf_eqb (lf_norm q (tk_g a)) (lf_norm q (tk_g b)) && (tk_lambda a mod q =? tk_lambda b mod q)%Z.
+
+(* intcom CommitmentKey.Equal: s and t (elements carry their modulus);
+   TrapdoorKey.Equal: t and λ (λ carries its modulus, the order) *)
+Definition int_key_eqb (a b : int_key) : bool :=
+  ((ik_n a =? ik_n b) && (ik_s a =? ik_s b) && (ik_t a =? ik_t b))%Z.
+Record int_tkey := { itk_n : Z; itk_t : Z; itk_lambda : Z; itk_ord : Z }.
+Definition int_tkey_eqb (a b : int_tkey) : bool :=
+  ((itk_n a =? itk_n b) && (itk_t a =? itk_t b) && (itk_lambda a =? itk_lambda b) && (itk_ord a =? itk_ord b))%Z.
+
+(* indcpacom over ElGamal: the key is h = x·g *)
+Definition eg_key_eqb (q x y : Z) : bool := (x mod q =? y mod q)%Z.
+
+(* ===================================================================== *)
 (* commitment keys extracted from a transcript                            *)
 (* ===================================================================== *)
 
